@@ -64,9 +64,95 @@ pub fn prod_case(rep: &Report, sub: &Subject, file: &[u8], p: &[u8], sender: &[u
     }
 }
 
+/// (a) The -o file cannot take the last bytes (RLIMIT_FSIZE a little below the plaintext length: 1, 100, 5000, 8192 and
+/// 70000 bytes short): "succeeds" is not an option. (b) An extended file F || extra offered through a reader that reports
+/// one error at any single read call: the result is never Ok (the error must not be taken for the end of the input).
+fn limits_and_faulty_extensions(rep: &Report) {
+    use crate::env::*;
+    use crate::fx::Party;
+    use crate::proc::{self, Cmd, Scratch};
+    let seed = rep.seed;
+    const CSZ: usize = 65536;
+    let alice = Party::new(seed, "alice", "alicepw");
+    let bob = Party::new(seed, "bob", "bobpw");
+    let kr = crate::fx::keyring(&[(&alice, false), (&bob, true)]);
+    let p = plaintext(seed ^ 0x3c1, 2 * CSZ + 9000);
+    let kf = r::write_key_file(&alice.sk, &bob.pk, &derive32(seed, "c03-lim-e"), &derive32(seed, "c03-lim-p"), &p, &[CSZ, CSZ, 9000]).unwrap();
+    let salt = derive32(seed, "c03-lim-salt");
+    let pf = r::write_pass_file_with_key(&r::pass_key(b"filepw", &salt), &salt, &p, &[CSZ, CSZ, 9000]);
+    let mut jobs = vec![];
+    for mode in ["key", "pass"] {
+        for short in [1usize, 100, 5000, 8192, 70_000] {
+            jobs.push((mode, short));
+        }
+    }
+    jobs.par_iter().for_each(|&(mode, short)| {
+        rep.eval(1);
+        rep.nontrivial(format!("c03-fsize-{}-{}", mode, short).as_bytes());
+        let attempt = || -> Result<(), String> {
+            let sc = Scratch::new();
+            sc.write("kr.txt", kr.as_bytes());
+            sc.write("in.ktl", if mode == "key" { &kf } else { &pf });
+            let args: Vec<&str> = if mode == "key" { vec!["decrypt", "in.ktl", "-t", "bob", "-k", "kr.txt", "-o", "out.bin", "--env-pass"] } else { vec!["password", "decrypt", "in.ktl", "-o", "out.bin", "--env-pass"] };
+            let mut c = Cmd::new(&args).env("KESTREL_PASSWORD", if mode == "key" { "bobpw" } else { "filepw" });
+            c.fsize_limit = Some((p.len() - short) as u64);
+            let o = proc::run(&c, &sc.0);
+            o.well_behaved()?;
+            let got = sc.read("out.bin").unwrap_or_default();
+            if o.ok() {
+                return Err(format!("exit status 0 although the output file could take only {} of the {} plaintext bytes (it holds {})", p.len() - short, p.len(), got.len()));
+            }
+            if !p.starts_with(&got) {
+                return Err("what is in the output file is not a prefix of the plaintext".into());
+            }
+            Ok(())
+        };
+        if attempt().is_err() {
+            if let Err(e) = attempt() {
+                rep.violation("cli/size-limited-output", json!({"kind":"limits","mode":mode,"short":short}), format!("kestrel {} decrypt -o under a file size limit {} bytes below the plaintext length: {}", mode, short, e));
+            }
+        }
+    });
+    // (b) in-process, tiny scope and production header
+    let tkey = derive32(seed, "c03-ext-key");
+    let mut items: Vec<(String, Subject, Vec<u8>)> = vec![];
+    for (cs, chunking) in [(2u32, vec![2usize, 2, 1]), (3, vec![3, 1]), (2, vec![0])] {
+        let pt = plaintext(seed ^ 0x3c2, chunking.iter().sum());
+        let f = r::write_chunks(&tkey, &[], &pt, &chunking);
+        for extra in [vec![0u8], vec![0u8; 40], f.clone()] {
+            items.push((format!("tiny cs={} chunks {:?} + {} extra bytes", cs, chunking, extra.len()), Subject::TinyDec { key: hx(&tkey), aad: String::new(), cs }, [f.clone(), extra].concat()));
+        }
+    }
+    {
+        let small = plaintext(seed ^ 0x3c3, 100);
+        let f = r::write_key_file(&alice.sk, &bob.pk, &derive32(seed, "c03-ext-e"), &derive32(seed, "c03-ext-p"), &small, &[100]).unwrap();
+        items.push(("key-mode file + 1 extra byte".into(), Subject::KeyDec { r: hx(&bob.sk), r_pub: hx(&bob.pk) }, [f.clone(), vec![7u8]].concat()));
+        items.push(("key-mode file + 200 extra bytes".into(), Subject::KeyDec { r: hx(&bob.sk), r_pub: hx(&bob.pk) }, [f, vec![7u8; 200]].concat()));
+    }
+    let execs = std::sync::atomic::AtomicU64::new(0);
+    items.par_iter().for_each(|(label, sub, x)| {
+        let mut menu = Menu::shorts(ReadMode::Full, false).no_record();
+        menu.read_fail = true;
+        menu.read_intr = true;
+        let st = explore(x, menu, Budget::new(0, 0, 1), &|e| run_env(sub, e), &|env, res| {
+            if res.is_ok() {
+                let mut c = Case::new(sub, x, menu, env).json(json!({"label":label}));
+                c["kind"] = json!("ext-fault");
+                rep.violation("extension-accepted-under-a-read-fault", c, format!("{}: accepted (Ok) under the schedule [{}]", label, describe(env)));
+            }
+        })
+        .unwrap_or_else(|e| crate::report::machinery(&e));
+        execs.fetch_add(st.executions, std::sync::atomic::Ordering::Relaxed);
+        rep.nontrivial(format!("ext-fault-{}", label).as_bytes());
+    });
+    rep.eval(execs.load(std::sync::atomic::Ordering::Relaxed));
+    rep.extra("extended_files_under_read_faults", json!({"inputs":items.len(),"executions":execs.load(std::sync::atomic::Ordering::Relaxed)}));
+    rep.extra("cli_size_limited_outputs", json!(jobs.len()));
+}
+
 pub fn run(rep: &'static Report) {
     rep.set_rule("E-GRAPH: breadth-first explicit-state search (stateright) from authentic files over the edit alphabet; in every reachable state the real decryptor is run on the state's bytes and compared with the acceptance model (the property statement), which is itself cross-checked against REF. Plus E-GRID: deviation-bounded words of REF-minted records through the real chunk loop, and (production size) every/selected single-bit flip and truncation of a 2-chunk file. distinct_nontrivial counts unique graph states (byte strings) + minted words");
-    rep.rule_add("Library level: decryption/encryption into sinks of bounded capacity succeed exactly when everything fitted. CLI: the reader of the stdout pipe leaves after 0/1/100/4096/65536 bytes of a 4-chunk plaintext: never exit 0.");
+    rep.rule_add("Library level: decryption/encryption into sinks of bounded capacity succeed exactly when everything fitted. CLI: the reader of the stdout pipe leaves after 0/1/100/4096/65536 bytes of a 4-chunk plaintext: never exit 0; -o under a size limit 1..70000 bytes below the plaintext length: never exit 0. Extended files under one read fault at any call: never Ok.");
     rep.rule_add("CLI level: 26 authentic/edited files x 3 output wirings x 3 input wirings; E-ENV short-count sinks with <=1 short read and <=2 short writes for every tiny authentic stream and the production file.");
     rep.assume("forgery resistance of ChaCha20-Poly1305 / X25519 (an edit sequence cannot produce a second valid file other than a corpus file)");
     rep.assume("authentic corpus files are written by REF (independent of the encryptor under test); key/plaintext values from seed-derived alphabets");
@@ -123,6 +209,7 @@ pub fn run(rep: &'static Report) {
     rep.sample(json!({"graph":"key","init":"A","path":["HdrField(A2, enc_payload)"],"meaning":"handshake field of another authentic file to the same recipient spliced in","expect":"reject"}));
     crate::c10::bounded_sink_cases(rep, "C03");
     crate::c04::reader_leaves_cases(rep, "C03");
+    limits_and_faulty_extensions(rep);
     rep.set_exhaustive(true);
 }
 
@@ -355,6 +442,19 @@ fn cli_level(rep: &Report) {
 }
 
 pub fn replay(rep: &'static Report, case: &Value) {
+    if case["kind"] == "limits" {
+        limits_and_faulty_extensions(rep);
+        return;
+    }
+    if case["kind"] == "ext-fault" {
+        let c = crate::streams::Case::from_json(case).unwrap_or_else(|| crate::report::machinery("bad case"));
+        let (env, res) = c.run();
+        println!("  observed: {} under [{}]", res.brief(), describe(&env));
+        if res.is_ok() {
+            rep.violation("extension-accepted-under-a-read-fault", case.clone(), "accepted".into());
+        }
+        return;
+    }
     if case["kind"] == "reader-leaves" {
         crate::c04::reader_leaves_cases(rep, "C03");
         return;
